@@ -67,6 +67,9 @@ type Exec struct {
 	backStates []backState
 	acquired bool
 	entryNext string
+	selfRef string
+	entry0 *State
+	preEntry *State
 }
 
 type edgeIn struct {
@@ -274,7 +277,7 @@ func (x *Exec) enterLoop(li *loopInfo, ins []edgeIn) *State {
 	invs := x.invariants(li)
 	// 1. invariant holds on entry
 	for _, cl := range invs {
-		env := x.newEnv(stIn, x.entry)
+		env := x.newEnv(stIn, x.oldOf(stIn))
 		env.atHeader = b
 		t := env.evalBool(cl.Expr)
 		x.obligeClause("inv-entry", fmt.Sprintf("loop%d/%s", li.ord, clauseLabel(cl)), stIn.reach, t, cl)
@@ -294,6 +297,10 @@ func (x *Exec) enterLoop(li *loopInfo, ins []edgeIn) *State {
 		savedNames[k] = v
 	}
 	savedRets := len(x.rets)
+	savedCallOrd := map[string]int{}
+	for k, v := range x.callOrd {
+		savedCallOrd[k] = v
+	}
 	savedEdges := x.edges
 	savedVals := x.vals
 	x.vals = map[ssa.Value]string{}
@@ -343,6 +350,7 @@ func (x *Exec) enterLoop(li *loopInfo, ins []edgeIn) *State {
 	vc.notes = savedNotes
 	vc.oblNames = savedNames
 	x.rets = x.rets[:savedRets]
+	x.callOrd = savedCallOrd
 	x.edges = savedEdges
 	x.vals = savedVals
 	x.backStates = nil
@@ -367,6 +375,13 @@ func (x *Exec) enterLoop(li *loopInfo, ins []edgeIn) *State {
 		st.comp[k] = c
 		if k == "next" {
 			vc.assert(app(">=", c, old))
+		}
+		if k == "Owned" {
+			// ownership only grows
+			vc.assert(fmt.Sprintf("(forall ((r Int)) (! (=> (select %s r) (select %s r)) :pattern ((select %s r))))", old, c, old))
+		}
+		if k == "Calls" {
+			vc.assert(fmt.Sprintf("(forall ((r Int)) (! (>= (select %s r) (select %s r)) :pattern ((select %s r))))", c, old, c))
 		}
 	}
 	for _, in := range b.Instrs {
@@ -397,7 +412,7 @@ func (x *Exec) enterLoop(li *loopInfo, ins []edgeIn) *State {
 	}
 	// 4. assume invariant
 	for _, cl := range invs {
-		env := x.newEnv(st, x.entry)
+		env := x.newEnv(st, x.oldOf(st))
 		env.atHeader = b
 		t := env.evalBool(cl.Expr)
 		vc.assert(implies(st.reach, t))
@@ -435,7 +450,11 @@ func (x *Exec) obligeClause(kind, name, reach, goal string, cl *Clause) {
 		if len(parts) > 1 {
 			nm = fmt.Sprintf("%s.%d", name, i)
 		}
-		o := &Obl{Name: x.prefix + "/" + kind + "/" + nm, Kind: kind, Props: x.props, Reach: reach, Goal: g, Src: cl.Text}
+		props := x.props
+		if len(cl.Props) > 0 {
+			props = cl.Props
+		}
+		o := &Obl{Name: x.prefix + "/" + kind + "/" + nm, Kind: kind, Props: props, Reach: reach, Goal: g, Src: cl.Text}
 		o.Pos = token.Position{Filename: cl.File, Line: cl.Line}
 		x.vc.oblige(o)
 	}
@@ -578,7 +597,7 @@ func (x *Exec) checkBackEdge(li *loopInfo, from *ssa.BasicBlock, st *State, cond
 	s2 := st.clone()
 	s2.reach = cond
 	for _, cl := range x.invariants(li) {
-		env := x.newEnv(s2, x.entry)
+		env := x.newEnv(s2, x.oldOf(s2))
 		env.atHeader = li.header
 		t := env.evalBool(cl.Expr)
 		x.obligeClause("inv-preserve", fmt.Sprintf("loop%d/%s", li.ord, clauseLabel(cl)), cond, t, cl)
@@ -1038,6 +1057,9 @@ func (x *Exec) unop(st *State, t *ssa.UnOp) {
 		c := vc.name(t.Name(), vc.sortOf(t.Type()), v)
 		x.vals[t] = c
 		x.assumeLoaded(st, c, t.Type())
+		if !(lv.kind == "field" && x.protectedHeaps()[vc.fieldHeap(lv.st, lv.field)]) {
+			x.assumeUnowned(st, c, t.Type())
+		}
 	case token.NOT:
 		x.vals[t] = not(x.value(t.X))
 	case token.SUB:
@@ -1067,6 +1089,20 @@ func (x *Exec) unop(st *State, t *ssa.UnOp) {
 		c := vc.fresh("unop", vc.sortOf(t.Type()))
 		x.vals[t] = c
 	}
+}
+
+// assumeUnowned: maps and backing arrays reachable by client code are not owned by any monitor
+// (discipline assumption: references to monitor-owned objects do not escape the monitor).
+func (x *Exec) assumeUnowned(st *State, c string, typ types.Type) {
+	if len(x.g.cs.Monitors) == 0 {
+		return
+	}
+	id := ownedID(typ, c)
+	if id == "" {
+		return
+	}
+	x.vc.regComp("Owned", "(Array Int Bool)")
+	x.vc.assert(implies(st.reach, not(sel(x.vc.get(st, "Owned"), id))))
 }
 
 // assumeLoaded: type invariant of values read from memory (cheap subset).
